@@ -300,8 +300,8 @@ func (w *kqueue) remove(name string, unwatchFiles bool) error {
 	// fails (e.g. because the kqueue itself is already closed): closing the
 	// descriptor removes the kevent too, and not doing it leaks it.
 	err := w.register([]int{info.wd}, unix.EV_DELETE, 0)
-	unix.Close(info.wd)
 	isDir := w.watches.remove(info.wd, name)
+	unix.Close(info.wd)
 	if err != nil {
 		return err
 	}
